@@ -521,7 +521,13 @@ func guardRule(w *World, r *Report, e *Engine, rule string, g guardedField) {
 							ok, why = true, "caller is itself entered with the object's lock held"
 						}
 						if !ok && e.freshPtr(recv, 0) {
-							ok, why = true, "receiver allocated in this activation"
+							// ... and not yet handed to anybody: a scope passed to the evaluator can be seen by a future
+							// the evaluated form started, from then on it is shared
+							if esc := handedOnBefore(recv, in); esc != nil {
+								why = "the object was allocated here but handed to " + describeCallInstr(e, esc) + " before this call: whatever that started (a future) reads it while this call writes it unlocked"
+							} else {
+								ok, why = true, "receiver allocated in this activation"
+							}
 						}
 						if checked[id] {
 							continue
@@ -1249,4 +1255,68 @@ func (w *World) arrivesAs(v, target ssa.Value, depth int) bool {
 		}
 	}
 	return true
+}
+
+// handedOnBefore: a call other than the object's own methods that is given v (or v boxed) as an argument and from
+// which the instruction at can be reached.
+func handedOnBefore(v ssa.Value, at ssa.Instruction) ssa.CallInstruction {
+	vals := []ssa.Value{v}
+	if v.Referrers() != nil {
+		for _, ref := range *v.Referrers() {
+			switch x := ref.(type) {
+			case *ssa.MakeInterface:
+				vals = append(vals, x)
+			case *ssa.ChangeInterface:
+				vals = append(vals, x)
+			}
+		}
+	}
+	for _, val := range vals {
+		if val.Referrers() == nil {
+			continue
+		}
+		for _, ref := range *val.Referrers() {
+			ci, ok := ref.(ssa.CallInstruction)
+			if !ok || ci == at {
+				continue
+			}
+			isArg := false
+			for _, a := range ci.Common().Args {
+				if a == val {
+					isArg = true
+				}
+			}
+			// (the receiver of a static method call is its first argument: the object's own methods do not publish it)
+			if sc := ci.Common().StaticCallee(); sc != nil && sc.Signature.Recv() != nil && len(ci.Common().Args) > 0 && ci.Common().Args[0] == val {
+				isArg = false
+				for _, a := range ci.Common().Args[1:] {
+					if a == val {
+						isArg = true
+					}
+				}
+			}
+			if !isArg {
+				continue
+			}
+			if ci.Block() == at.Block() {
+				before := false
+				for _, in := range at.Block().Instrs {
+					if in == ssa.Instruction(ci) {
+						before = true
+					}
+					if in == at {
+						break
+					}
+				}
+				if before || blockReaches(ci.Block(), at.Block(), false) {
+					return ci
+				}
+				continue
+			}
+			if blockReaches(ci.Block(), at.Block(), false) {
+				return ci
+			}
+		}
+	}
+	return nil
 }
